@@ -183,6 +183,58 @@ def _open_block(c):
     return c01.build_file(c, "LSL")
 
 
+# ---------------------------------------------------------------- 4. the per-parse-context cache of simple() hints
+def _hint_objects():
+    """Grammar objects related the way dialects relate them: an original, copies that insert / remove options or change
+    terminators (copy.copy shares everything that is not reassigned), and an unrelated grammar."""
+    from sqlfluff.core.parser import OneOf, Ref, Sequence
+    g1 = OneOf("SELECT", "FROM")
+    objs = {
+        "original": g1,
+        "copy_with_inserted_option": g1.copy(insert=[Ref.keyword("TABLE")]),
+        "copy_with_removed_option": g1.copy(remove=[Ref.keyword("FROM")]),
+        "copy_with_terminators": g1.copy(terminators=[Ref.keyword("WHERE")]),
+        "unrelated": Sequence("OPTIONS", "TABLE"),
+    }
+    return objs
+
+
+def _true_hints():
+    from sqlfluff.core.dialects import dialect_selector
+    from sqlfluff.core.parser.context import ParseContext
+    out = {}
+    for name in _hint_objects():
+        objs = _hint_objects()   # fresh objects, fresh context: nothing cached anywhere can be involved
+        out[name] = objs[name].simple(ParseContext(dialect=dialect_selector("ansi"), max_parse_depth=255))
+    return out
+
+
+def make_hint_cache(n_calls):
+    def factory(excluded=frozenset()):
+        def harness(c):
+            from sqlfluff.core.dialects import dialect_selector
+            from sqlfluff.core.parser.context import ParseContext
+            objs = _hint_objects()
+            truth = _true_hints()
+            names = list(objs)
+            ctxs = [ParseContext(dialect=dialect_selector("ansi"), max_parse_depth=255) for _ in range(2)]
+            ok, calls = True, []
+            for k in range(n_calls):
+                nm = choose(c, f"call{k}_grammar", names)
+                cx = int(fresh_int(c, f"call{k}_context", 0, 1))
+                got = objs[nm].simple(ctxs[cx])   # REAL (cached_method_for_parse_context)
+                calls.append((nm, cx))
+                if got != truth[nm]:
+                    ok = False
+            if len({n for n, _ in calls}) > 1 and len({x for _, x in calls}) == 1:
+                c.witness("two_grammars_one_context")
+            if any(calls[i] == calls[j] for i in range(len(calls)) for j in range(i)):
+                c.witness("cache_hit")
+            return ok
+        return harness
+    return factory
+
+
 def units(tier, seed):
     from sqlfluff.core.dialects import dialect_readout
     us = []
@@ -201,6 +253,16 @@ def units(tier, seed):
             name=f"c06.prune_options[{n} options]", functions=["sqlfluff.core.parser.match_algorithms.prune_options", "first_non_whitespace"],
             bounds={"options": n, "hints": "None / any subset of 2 raws and/or 2 types", "leading whitespace tokens": "0..2"},
             make=make_prune(n), replay="concrete", witnesses_required=["pruned", "kept"], sharded=True, timeout_s=600))
+    nc = 3 if tier == "quick" else 4
+    us.append(Unit(
+        name=f"c06.simple_hint_cache_history[{nc} calls]",
+        functions=["sqlfluff.core.parser.grammar.base.cached_method_for_parse_context", "BaseGrammar.copy / cache_key", "OneOf/Sequence.simple"],
+        bounds={"calls": nc, "grammar objects": list(_hint_objects()), "parse contexts": 2},
+        make=make_hint_cache(nc), replay="concrete",
+        stubs=["none: real grammar objects over the ansi dialect; the reference hint of each object comes from freshly built objects "
+               "in a fresh context"],
+        outside=["copies of copies", "the longest_match parse cache"],
+        witnesses_required=["two_grammars_one_context", "cache_hit"], sharded=True, timeout_s=600))
     us.append(Unit(
         name="c06.block_tracker_history", functions=["sqlfluff.core.parser.lexer.BlockTracker (class-level _stack/_map)", "_iter_segments", "_handle_zero_length_slice"],
         bounds={"file A": "L / LSLEL / loop2 / unclosed block", "file B": "LSLEL / loop2 / if-else", "all lengths": "symbolic"},
